@@ -57,6 +57,7 @@ const (
 	pTwoHoldersSameStep
 	pByValueCopies
 	pTwoBuffersHeld
+	pHandedOver
 	// C19
 	pSameEntryAdjacent
 	pReaderWriterAdjacent
@@ -72,13 +73,13 @@ var probeNames = [numProbes]string{
 	"get_after_gc_emptied_pool", "rejected_put", "reuse_via_allocator_copy", "reuse_via_allocator_pointer",
 	"append_that_grew",
 	"recycled_across_tasks", "recycled_within_task", "get_while_other_task_holds", "gc_between_put_and_get",
-	"two_tasks_holding_at_same_step", "by_value_allocator_copies", "task_holding_two_buffers",
+	"two_tasks_holding_at_same_step", "by_value_allocator_copies", "task_holding_two_buffers", "buffer_handed_to_another_task",
 	"same_entry_point_adjacent_steps", "reader_writer_adjacent_neighbouring_frames",
 	"writer_ranges_share_8byte_word", "shared_buffer_is_window", "panic_matched_sequential",
 }
 
 var probeProp = [numProbes]string{
 	"C10", "C10", "C10", "C10", "C10", "C10", "C10", "C10", "C10", "C10", "C10", "C10",
-	"C11", "C11", "C11", "C11", "C11", "C11", "C11",
+	"C11", "C11", "C11", "C11", "C11", "C11", "C11", "C11",
 	"C19", "C19", "C19", "C19", "C19",
 }
